@@ -22,6 +22,67 @@ def self_attr(e, name=None):
     return isinstance(e, ast.Attribute) and isinstance(e.value, ast.Name) and e.value.id == "self" and (name is None or e.attr == name)
 
 
+MUTATORS = ("append", "pop", "remove", "insert", "clear", "extend", "sort", "reverse")
+
+
+def _rebinders(ci, lst, _cache={}):
+    """methods of the dialog that (transitively, through calls on self) assign self.<lst> anew"""
+    key = (id(ci), lst)
+    if key in _cache:
+        return _cache[key]
+    direct = {n_ for n_, m in ci.methods.items() if any(isinstance(a, ast.Assign) and any(self_attr(t, lst) or (isinstance(t, (ast.Tuple, ast.List)) and any(self_attr(x, lst) for x in t.elts)) for t in a.targets)
+                                                       for a in ast.walk(m.node))}
+    out = set(direct)
+    changed = True
+    while changed:
+        changed = False
+        for n_, m in ci.methods.items():
+            if n_ in out:
+                continue
+            if any(self_attr(x) and x.attr in out for x in ast.walk(m.node)):
+                out.add(n_)
+                changed = True
+    _cache[key] = out
+    return out
+
+
+def _alias_of(e, lists, fi, stmt, ci):
+    """(tracked list, status) for a local name holding a reference to self.<list>: status True = the reference is still the list
+    the attribute names, None = the attribute may have been re-bound (or an unknown callable ran) between the fetch and the use"""
+    if fi is None or not isinstance(e, ast.Name):
+        return None, True
+    try:
+        ex = astq.expr_at(fi, stmt, e)
+    except Exception:
+        return None, True
+    if isinstance(ex, ast.Call) and isinstance(ex.func, ast.Name) and ex.func.id == "getattr" and ex.args and isinstance(ex.args[0], ast.Name) and ex.args[0].id == "self":
+        return "?", None        # an attribute of the dialog chosen at run time: may be either list
+    if not (self_attr(ex) and ex.attr in lists):
+        return None, True
+    # the fetch: last plain assignment of the name before the use
+    fetch = None
+    for a in ast.walk(fi.node):
+        if isinstance(a, ast.Assign) and len(a.targets) == 1 and isinstance(a.targets[0], ast.Name) and a.targets[0].id == e.id and a.lineno <= getattr(stmt, "lineno", 0):
+            if fetch is None or a.lineno > fetch.lineno:
+                fetch = a
+    if fetch is None:
+        return ex.attr, None
+    reb = _rebinders(ci, ex.attr) if ci is not None else set()
+    params = set(astq.params_of(fi.node)[0] + astq.params_of(fi.node)[1]) - {"self"}
+    for n in ast.walk(fi.node):
+        ln = getattr(n, "lineno", None)
+        if ln is None or not (fetch.lineno < ln <= getattr(stmt, "lineno", 0)):
+            continue
+        if isinstance(n, ast.Assign) and any(self_attr(t, ex.attr) for t in n.targets):
+            return ex.attr, None
+        if isinstance(n, ast.Call):
+            if self_attr(n.func) and n.func.attr in reb:
+                return ex.attr, None
+            if isinstance(n.func, ast.Name) and n.func.id in params:
+                return ex.attr, None    # a callable handed in by the caller: effect unknown
+    return ex.attr, True
+
+
 def _target_list(e, lists, alias):
     """name of the tracked list that expression e denotes: self.<list>, or a parameter known to alias one"""
     if self_attr(e) and e.attr in lists:
@@ -56,7 +117,13 @@ def mutations(body, lists, fi=None, alias=None, ci=None, depth=1):
         for n in ast.walk(s):
             if isinstance(n, ast.Call) and isinstance(n.func, ast.Attribute):
                 tl = _target_list(n.func.value, lists, alias)
-                if tl is not None and n.func.attr in ("append", "pop", "remove", "insert", "clear", "extend", "sort", "reverse"):
+                if tl is None and n.func.attr in MUTATORS and isinstance(n.func.value, ast.Name):
+                    tl, valid = _alias_of(n.func.value, lists, fi, s, ci)
+                    if tl is not None and valid is None:
+                        for l_ in (lists if tl == "?" else (tl,)):
+                            out[l_].append(("unknown", f"{n.func.attr} through `{n.func.value.id}`, a reference that may no longer be (or may not be) self.{l_}", n))
+                        continue
+                if tl is not None and n.func.attr in MUTATORS:
                     det = n.func.attr + "(" + (",".join(astq.src(a) for a in n.args) if n.func.attr != "append" else "") + ")"
                     out[tl].append((n.func.attr, det, n))
                 # own helper given a tracked list
@@ -68,6 +135,8 @@ def mutations(body, lists, fi=None, alias=None, ci=None, depth=1):
                                      and (_target_list(c.func.value, lists, sub_alias) is not None) for c in ast.walk(callee.node))
                     if has_effect and not errs:
                         argmap = {p_: astq.src(a_) for p_, a_ in m_.items() if isinstance(a_, ast.AST)}
+                        if fi is not None:
+                            callee = astq.SpecialisedFn(callee, fi, n)      # constants / attributes / lambdas travel over the call edge
                         for blk in blocks(callee.node):
                             sub = mutations(blk, lists, callee, sub_alias, ci, depth - 1)
                             for l_, items in sub.items():
@@ -136,6 +205,48 @@ def mode_methods(ci, mode):
     return seen
 
 
+def units(ci, live, mode, depth=3):
+    """analysis units of one dialog variant: (method, specialised + pruned body, call site description).  A method that other methods
+    of the dialog call with arguments is analysed once per call site, with the arguments propagated (SpecialisedFn); it is ALSO
+    analysed on its own when it is referenced without a call (connected as a handler) or never called with arguments."""
+    consts = {"self.plot": mode, "plot": mode}
+    called_with_args, bare = {}, set()
+    for m in ci.methods.values():
+        if m.node.name not in live:
+            continue
+        calls = {id(c.func) for c in ast.walk(m.node) if isinstance(c, ast.Call)}
+        for n in ast.walk(m.node):
+            if isinstance(n, ast.Call) and self_attr(n.func) and n.func.attr in ci.methods and (n.args or n.keywords):
+                called_with_args.setdefault(n.func.attr, []).append((m, n))
+            if self_attr(n) and n.attr in ci.methods and id(n) not in calls:
+                bare.add(n.attr)
+    out = []
+    for m in ci.methods.values():
+        if m.node.name not in live:
+            continue
+        if m.node.name not in called_with_args or m.node.name in bare or not m.node.name.startswith("_"):
+            out.append((m, astq.PrunedFn(m, consts), None))
+    work = [(u[1], 0) for u in out]
+    seen = set()
+    while work:
+        holder, d = work.pop()
+        if d >= depth:
+            continue
+        for n in ast.walk(holder.node):
+            if isinstance(n, ast.Call) and self_attr(n.func) and n.func.attr in ci.methods and (n.args or n.keywords) and n.func.attr in live:
+                callee = ci.methods[n.func.attr]
+                if callee.node is getattr(holder, "fi", holder).node or (id(n), callee.qual) in seen:
+                    continue
+                seen.add((id(n), callee.qual))
+                sp = astq.SpecialisedFn(callee, holder, n)
+                if not sp.bound_params:
+                    continue
+                pf = astq.PrunedFn(sp, consts)
+                out.append((callee, pf, f"{holder.node.name}:{getattr(n, 'lineno', 0)}"))
+                work.append((pf, d + 1))
+    return out
+
+
 ARRAY_MAKERS = ("numpy.arange", "numpy.array", "numpy.asarray", "numpy.zeros", "numpy.ones", "numpy.linspace", "numpy.abs", "numpy.full")
 
 
@@ -150,14 +261,11 @@ def check(prog, run):
     for mode, partner in MODES.items():
         lists = (MAIN, partner)
         live = mode_methods(ci, mode)
-        for m in ci.methods.values():
-            if m.node.name not in live:
-                continue
-            pf = astq.PrunedFn(m, {"self.plot": mode, "plot": mode})
+        for m, pf, site in units(ci, live, mode):
             # a private helper that mutates a list it receives as a parameter is judged at its call sites (with the argument substituted)
             params = set(astq.params_of(m.node)[0]) - {"self"}
             by_param = m.node.name.startswith("_") and any(isinstance(c, ast.Call) and isinstance(c.func, ast.Attribute) and isinstance(c.func.value, ast.Name)
-                                                           and c.func.value.id in params and c.func.attr in ("append", "pop", "remove", "insert", "clear", "extend", "sort", "reverse")
+                                                           and c.func.value.id in params and c.func.attr in MUTATORS
                                                            for c in ast.walk(m.node))
             if by_param:
                 continue
@@ -169,9 +277,11 @@ def check(prog, run):
                 ka = sorted(x[1] for x in a)
                 kb = sorted(x[1] for x in b)
                 ok = ka == kb
+                if any(x[0] == "unknown" for x in a + b):
+                    ok = None
                 node = (a or b)[0][2]
-                run.ob("R-lockstep", m.qual, f"{MAIN} / {partner} mutated together", ok,
-                       f"{MAIN}: {ka}; {partner}: {kb}" + ("" if ok else f" - the lists get out of step in dialog variant {mode}"),
+                run.ob("R-lockstep", m.qual, f"{MAIN} / {partner} mutated together" + (f" (as called from {site})" if site else ""), ok,
+                       f"{MAIN}: {ka}; {partner}: {kb}" + ("" if ok is not False else f" - the lists get out of step in dialog variant {mode}"),
                        witness=f"{ka} vs {kb}", file=f, node=node, config=f"plot={mode}")
     # ---------------- types
     assigned = {}
@@ -279,7 +389,11 @@ def pick(prog, run, ci, f):
         pops = []
         for n in ast.walk(h.node):
             if isinstance(n, ast.Call) and isinstance(n.func, ast.Attribute) and n.func.attr == "pop" and n.args and self_attr(n.func.value, MAIN):
-                pops.append((n, astq.expr_at(h, n, n.args[0])))
+                iv0 = astq.expr_at(h, n, n.args[0])
+                if isinstance(iv0, ast.Name) and astq.reaching_values(h, n, iv0.id):
+                    pops.extend((n, v_) for v_ in astq.reaching_values(h, n, iv0.id))
+                else:
+                    pops.append((n, iv0))
             if isinstance(n, ast.Call) and self_attr(n.func) and n.func.attr in ci.methods and n.func.attr.startswith("_"):
                 callee = ci.methods[n.func.attr]
                 m_, errs = astq.bind_args(callee.node, n, bound=True)
@@ -288,6 +402,9 @@ def pick(prog, run, ci, f):
                         a0 = astq.expr_at(callee, c, c.args[0])
                         if isinstance(a0, ast.Name) and a0.id in m_ and isinstance(m_[a0.id], ast.AST):
                             pops.append((n, astq.expr_at(h, n, m_[a0.id])))
+                        elif isinstance(a0, ast.Name) and astq.reaching_values(callee, c, a0.id):
+                            # an index chosen in branches (`pos = -1` / `pos = argmin(...)`): every value it may hold is judged
+                            pops.extend((n, v_) for v_ in astq.reaching_values(callee, c, a0.id))
                         else:
                             pops.append((n, a0))
         # pop(-1) is the deselect-LAST gesture, judged by R-lockstep
